@@ -80,7 +80,7 @@ class C15(Check):
             raise ToolFailure("GenNetwork failed: " + out[-1500:])
         ctx.mc_results.append({"module": "GenNetwork", "cfg": cfg, "generated": gen, "distinct": dist, "ok": True, "wall_s": 0, "action_coverage": {}})
         for c in items:
-            c["case"] = "net/%s/%s/%s" % (c["T"], c["mode"], ",".join("".join("ijklmn"[x - 1] for x in ls) for ls in c["labels"]))
+            c["case"] = "net/%s/%s/%s" % (c["T"], c["mode"], ",".join("".join("ijklmnopq"[x - 1] for x in ls) for ls in c["labels"]))
         items.sort(key=lambda c: c["case"])
         return items
 
